@@ -236,6 +236,11 @@ class Builder:
     def assume(self, cond):
         self.I.assume(cond)
 
+    def between(self, x, lo, hi):
+        """assume lo <= x <= hi (works for symbolic and, in replays, concrete x)."""
+        if isinstance(x, SymVal):
+            self.I.assume(z3.And(x.t >= lo, x.t <= hi))
+
     def opaque(self, name, methods=None, attrs=None, classes=()):
         return Opaque(name, methods, attrs, classes)
 
